@@ -207,6 +207,16 @@ def r2(ctx: Context, sm) -> None:
     # ordering of check and RUNNING
     g = func_cfg(repo, run)
     pm = parent_map(run.node)
+    # polarity: the re-route belongs to the REFUSED arm, and no path refuses without re-routing
+    from ..flow import conditions_at, negate as _neg
+
+    rer = [c for c in calls_in(run.node) if call_name(c) in ("reroute_invocations", "reroute_invocation")]
+    for c in rer:
+        conds = conditions_at(g, run.node, c, pm)
+        refused_arm = any(isinstance(t, ast.UnaryOp) and isinstance(t.op, ast.Not) and isinstance(t.operand, ast.Call) and call_name(t.operand) == CHECKS[1] for t in conds)
+        granted_arm = any(isinstance(t, ast.Call) and call_name(t) == CHECKS[1] for t in conds)
+        if refused_arm or granted_arm:
+            ctx.add("R2", f"{run.qualname}::reroute-on-the-refused-arm", refused_arm and not granted_arm, run.loc(c), "" if refused_arm and not granted_arm else "the invocation is re-routed when the concurrency check GRANTS it and proceeds to RUNNING when the check refuses it: two invocations with the same key run together, authorised ones bounce back into the queue")
     dom = g.dominators()
     chk_nodes = [n for c in calls_in(run.node) if call_name(c) == CHECKS[1] for n in cfg_node_of(g, run.node, c, pm)]
     for s in [x for x in status_sites(repo) if x.func is run and x.status == "RUNNING"]:
